@@ -159,42 +159,43 @@ def ulps(a, b):
 # --------------------------------------------------------------------------
 # flatten specification
 
-def restart_shaped(blocks):
-    """True when the step ranges of the non-empty blocks, in order, look like what a chain of LAMMPS
-    restarts prints: each later block starts strictly after everything the previous block printed
-    (in-flight row included), or starts on a step the previous block printed, prints the same steps
-    over the overlap, and ends at or after the previous block's end."""
-    prev = None
+def threshold_merge(blocks, style):
+    """The documented shortcut ("rows after the last merged step" / "rows before this run's first step")
+    applied to the complete rows.  Where its result equals flatten_expect() the shortcut and the
+    statement's set semantics coincide and the real table is checked against the statement; elsewhere
+    (timestep resets, a later run that ends below what is already merged and is not covered again) the
+    tutorial reserves style='all' and nothing is demanded of first/last."""
+    merged = []
+    for b in blocks:
+        k = b.cols.index('Step')
+        rows = [(int(r[k]), b, r) for r in b.rows]
+        if not rows:
+            continue
+        if not merged:
+            merged = rows
+        elif style == 'first':
+            mx = max(s for s, _, _ in merged)
+            merged = merged + [x for x in rows if x[0] > mx]
+        else:
+            mn = min(s for s, _, _ in rows)
+            merged = [x for x in merged if x[0] < mn] + rows
+    return merged
+
+
+def shortcut_is_exact(blocks, style):
+    exp = flatten_expect(blocks, style)
+    got = threshold_merge(blocks, style)
+    if len(got) != len(exp):
+        return False
+    for s, b, r in got:
+        e = exp.get(s)
+        if e is None or e[0] is not b or e[1] is not r:
+            return False
+    # steps inside one run must be strictly increasing for "a timestep" to be well defined
     for b in blocks:
         st = b.steps()
-        if st is None:
-            return False
-        if not st and b.torn_row is None:
-            continue
         if any(y <= x for x, y in zip(st, st[1:])):
             return False
-        ts = b.torn_step()
-        if b.torn_row is not None and ts is None and 'Step' in b.cols:
-            # in-flight row without a readable Step: contributes NaN
-            pass
-        if not st:
-            # only an in-flight row: nothing certain about it
-            return False
-        if prev is not None:
-            pst, pts = prev
-            pmax = max(pst)
-            hi = pmax if pts is None else max(pmax, pts)
-            if st[0] > hi:
-                pass
-            elif st[0] in pst and st[-1] >= pmax and [s for s in st if s <= pmax] == [s for s in pst if s >= st[0]]:
-                pass
-            else:
-                return False
-            if ts is not None and ts < st[0]:
-                # an in-flight row whose Step prefix is smaller than the block's first step
-                # changes Step.min(); keep such shapes, they are part of the crash space
-                pass
-        prev = (st, ts)
     return True
 
 
